@@ -39,7 +39,7 @@ FORWARDERS = {
 }
 OBSERVERS = list(FORWARDERS) + [BASE_SLICE, BASE_BUF,
                                 "<CircularBuffer<N, T> as PartialOrd<CircularBuffer<M, U>>>::partial_cmp", "<CircularBuffer<N, T> as Ord>::cmp",
-                                "<CircularBuffer<N, T> as Hash>::hash", "<CircularBuffer<N, T> as Hash>::hash::{closure#0}",
+                                "<CircularBuffer<N, T> as Hash>::hash",
                                 "<CircularBuffer<N, T> as Debug>::fmt"]
 
 
@@ -96,7 +96,9 @@ def fwd1(ctx, prog, cfg):
 
 def obs1(ctx, prog, cfg):
     eff = effects.get(prog)
-    for short in OBSERVERS:
+    # the observers and whatever closures they contain on this tree
+    names = list(OBSERVERS) + sorted(s for s, g in prog.fns.items() if g.has_mir and any(s.startswith(o + "::{closure#") for o in OBSERVERS))
+    for short in names:
         f = ctx.need_fn(prog, short, "OBS1")
         if f is None:
             continue
@@ -136,13 +138,7 @@ def ord_hash_dbg(ctx, prog, cfg):
                                      r"call core::iter::traits::iterator::Iterator::%s\(CircularBuffer::iter\(self\), CircularBuffer::iter\(other\)\)" % callee,
                                      r"return Iterator::%s\(CircularBuffer::iter\(self\), CircularBuffer::iter\(other\)\)" % callee], cfg,
            "self.iter().%s(other.iter())" % callee, "`%s` is not std's lexicographic comparison of the two element sequences (self on the left)" % name)
-    mm(ctx, "HASH1", prog, "<CircularBuffer<N, T> as Hash>::hash",
-       [r"call <usize as core::hash::Hash>::hash\(&self->size, state\)", r"call CircularBuffer::iter\(self\)",
-        r"call core::iter::traits::iterator::Iterator::for_each\(CircularBuffer::iter\(self\), \{closure#0\}::\{0: state\}\)", r"return const"], cfg,
-       "size.hash(state); iter().for_each(|x| x.hash(state))",
-       "`hash` does not feed the length once and then each element of iter(): hashing slices segment-wise (or the capacity/start) makes equal buffers hash differently")
-    mm(ctx, "HASH1", prog, "<CircularBuffer<N, T> as Hash>::hash::{closure#0}", [r"call core::hash::Hash::hash\(item, \(\*_1\)\.0\)", r"return .*"], cfg,
-       "item.hash(state)", "the per-element closure is not exactly one `item.hash(state)`")
+    hash1(ctx, prog, cfg)
     mm(ctx, "DBG1", prog, "<CircularBuffer<N, T> as Debug>::fmt", [r"return DebugList::finish\(DebugList::entries\(&\{Formatter::debug_list\(f\)\}, self\)\)"], cfg,
        "debug_list().entries(self).finish()", "Debug::fmt is not `f.debug_list().entries(self).finish()`, the callee sequence of core's `impl Debug for [T]`")
 
@@ -276,3 +272,90 @@ def base2(ctx, prog, cfg):
                           "a split point of the segment alignment is computed from something other than the lengths of the two first "
                           "segments (`%s`): where the segments meet does not depend on the total length or on anything else" % mir.fmt(bd, f),
                           "built from len(a_left), len(b_left) by subtraction only", cfg)
+
+
+HASH_FN = "<CircularBuffer<N, T> as Hash>::hash"
+_HASH_PLUMBING = ("CircularBuffer::len", "CircularBuffer::iter", "<I as IntoIterator>::into_iter", "<Iter<T> as Iterator>::next",
+                  "Iterator::for_each")
+
+
+def hash1(ctx, prog, cfg):
+    """the hasher is fed the length exactly once (on every path, before any element), then exactly one
+    generic `<T as Hash>::hash(item, state)` per item of `self.iter()`, by closure or by loop; nothing else"""
+    f = ctx.need_fn(prog, HASH_FN, "HASH1")
+    if f is None:
+        return
+    fns = [f] + [g for s, g in sorted(prog.fns.items()) if s.startswith(HASH_FN + "::{closure#") and g.has_mir]
+    size = ("load", ("param", 1), ("size",), ("entry", ("M", "size")))
+    lens, elems, others = [], [], []
+    for g in fns:
+        for b, t in g.calls(False):
+            p, s = mir.callee_path(t), mir.callee_short(t)
+            if p in ("<usize as core::hash::Hash>::hash", "core::hash::Hasher::write_usize"):
+                lens.append((g, b, p))
+            elif p == "core::hash::Hash::hash":
+                elems.append((g, b))
+            elif s not in _HASH_PLUMBING:
+                others.append("%s in %s" % (p, g.short))
+    why = []
+    if others:
+        why.append("feeds or reads something else: " + "; ".join(others[:3]))
+    if len(lens) != 1 or lens[0][0] is not f:
+        why.append("%d length writes (expected exactly one, in `hash` itself)" % len(lens))
+    else:
+        g, b, p = lens[0]
+        a = [g.deep_simplify(x) for x in g.call_args(b)]
+        if p.endswith("write_usize"):
+            a = [("ref", ("local", 0, mir.strip_casts(a[1]))), a[0]]
+        v = a[0]
+        val = v[1][2] if isinstance(v, tuple) and v[0] == "ref" and v[1][0] == "local" else (("load",) + tuple(v[1][1:]) if isinstance(v, tuple) and v[0] == "ref" and v[1][0] == "place" else None)
+        is_size = val == size or (isinstance(val, tuple) and val[:3] == ("load", ("param", 1), ("size",)))
+        if not is_size:
+            why.append("the length fed to the hasher is `%s`, not the number of elements" % mir.fmt(v, g))
+        if a[1] != ("param", 2):
+            why.append("the length is not fed to `state`")
+        dom = f.dominators()
+        for rb in f.return_blocks():
+            if not f.dominates(b, rb):
+                why.append("the length is not written on every path")
+                break
+    if len(elems) != 1:
+        why.append("%d element hash calls (expected exactly one `item.hash(state)`)" % len(elems))
+    else:
+        g, b = elems[0]
+        a = [g.deep_simplify(x) for x in g.call_args(b)]
+        iters = f.calls_to("CircularBuffer::iter", unwind=False)
+        if len(iters) != 1 or f.call_args(iters[0][0]) != [("param", 1)] and tuple(f.call_args(iters[0][0])) != (("param", 1),):
+            why.append("the elements do not come from exactly one `self.iter()`")
+        if g is f:
+            it = ("call", "CircularBuffer::iter", (("param", 1),))
+            x = a[0]
+            okx = (isinstance(x, tuple) and x[0] == "field" and x[2] == "0" and x[1][0] == "as" and x[1][2] == "Some"
+                   and x[1][1][0] == "call" and x[1][1][1] == "<Iter<T> as Iterator>::next")
+            if okx:
+                src = x[1][1][2][0]
+                calls = [s[1] for s in mir.walk(src) if isinstance(s, tuple) and s and s[0] == "call"]
+                okx = calls in (["<I as IntoIterator>::into_iter", "CircularBuffer::iter"], ["CircularBuffer::iter"])
+            if not okx:
+                why.append("the hashed item `%s` is not the item produced by `self.iter()`" % mir.fmt(x, g))
+            if a[1] != ("param", 2):
+                why.append("the element is not fed to `state`")
+            if lens and lens[0][0] is f and not f.dominates(lens[0][1], b):
+                why.append("an element can be hashed before the length")
+        else:
+            fe = f.calls_to("Iterator::for_each", unwind=False)
+            if len(fe) != 1:
+                why.append("%d for_each calls" % len(fe))
+            else:
+                fa = [mir.fmt(f.deep_simplify(x), f) for x in f.call_args(fe[0][0])]
+                import re as _re
+                if not (_re.fullmatch(r"CircularBuffer::iter\(self\)(@bb\d+)?", fa[0]) and _re.fullmatch(r"\{closure#0\}::\{0: state\}", fa[1])):
+                    why.append("for_each(%s) is not self.iter().for_each(|item| ..state..)" % ", ".join(fa))
+                if lens and lens[0][0] is f and not f.dominates(lens[0][1], fe[0][0]):
+                    why.append("an element can be hashed before the length")
+            if a[0] != ("param", 2) or mir.fmt(a[1], g) != "(*_1).0":
+                why.append("the closure hashes `%s` into `%s`, not its item into the captured state" % (mir.fmt(a[0], g), mir.fmt(a[1], g)))
+    ctx.check(not why, "HASH1", HASH_FN, "len once, then one element hash per item of iter()", f.loc,
+              "`hash` does not feed the length once and then each element of iter() exactly once: %s — hashing slices segment-wise "
+              "(or the capacity/start) makes equal buffers hash differently" % "; ".join(why),
+              "one length write of `size` dominating the exits, one `<T as Hash>::hash(item, state)` per item of self.iter()", cfg)
